@@ -51,6 +51,8 @@ def task_spec(draw):
         s['soe'] = True          # stage_on_error with a client-side output transfer
     if draw(st.integers(0, 6)) == 0:
         s['ranks'] = 2          # always fits: every layout has >= 2 cores
+    if draw(st.integers(0, 3)) == 0:
+        s['slow'] = True        # its process is still running while later operations happen
     return s
 
 
@@ -73,13 +75,15 @@ def cases(draw):
                     sp['named2'] = True       # names the second pilot
         n += len(bulk)
         ops.append(['submit', bulk])
-        k = draw(st.integers(0, 3))
+        slow = any(sp.get('slow') for sp in bulk)
+        k = 1 if (slow and draw(st.booleans())) else draw(st.integers(0, 3))
         if k == 0:
             ops.append(['poll', draw(st.lists(st.integers(0, 8), min_size=1, max_size=12))])
         elif k == 1:
             ops.append(['pump'])
-        if draw(st.integers(0, 3)) == 0:
-            ops.append(['cancel', draw(st.lists(st.integers(0, n - 1), min_size=1, max_size=2))])
+        if draw(st.integers(0, 1 if slow else 3)) == 0:
+            ops.append(['cancel', draw(st.lists(st.integers(0, n - 1), min_size=1, max_size=2)),
+                        draw(st.booleans())])      # the request crosses the processes' own exit
         if late and draw(st.integers(0, 2)) == 0:
             ops.append(['add_pilot'])
     return {'kind': 'pipe', 'late_add': late, 'two': two, 'ops': ops,
@@ -136,6 +140,8 @@ def run_case(case):
             res.label('fault=%s' % (s.get('fault') or ('exit_nonzero' if s.get('exit') else 'none')))
     if sim.cancel_req:
         res.label('cancel')
+    if sim.late_cancel:
+        res.label('cancel_crossing_process_exit')
     if any(s.get('soe') and (s.get('exit') or s.get('fault')) for b in bulks for s in b):
         res.label('stage_on_error_with_failure')
     if case.get('two'):
